@@ -74,9 +74,12 @@ impl<T> SharedFd<T> {
 
     /// Wait and take the inner owned fd.
     pub fn take(self) -> impl Future<Output = Option<T>> {
-        let inner = self.into_inner();
-
         async move {
+            // Strip the `Drop` wrapper only once the future runs: a future that is dropped before
+            // its first poll must release the handle through `Drop`, so that a waiting `take` is
+            // woken if this was the last other holder.
+            let inner = self.into_inner();
+
             if !inner.waits.swap(true, Ordering::AcqRel) {
                 let mut inner = Some(inner);
                 poll_fn(move |cx| {
